@@ -159,6 +159,7 @@ class World(object):
         self.live = case.get('live')                            # None | 'tag' | 'llc'
         self.in_activate = False
         self.fed = 0
+        self.terminated = False
         self.objects = {}       # id(obj) -> (obj, name), for naming returned objects
         self.nobj = 0
 
@@ -191,6 +192,8 @@ class World(object):
             raise StopRun()
         r = self.term.next()
         self.ev.append('term:%d' % (1 if r else 0))
+        if r:
+            self.terminated = True
         return r
 
     def cbvalue(self):
@@ -223,6 +226,15 @@ class World(object):
         if self.fed < 25 and getattr(self, 'llc', None) is not None:
             self.fed += 1
             self.llc.sendto(self.sock, b'DATA', 32, nfc.llcp.MSG_DONTWAIT)
+
+    def peer_answer(self):
+        """next answer of the scripted remote peer of the live llc / dep parts.  Once terminate() has returned
+        true the transport does not fail any more: the model's run-loop stand-in ends normally in that case and
+        cannot express an I/O error during the closing DISC exchange"""
+        o = self.peer.next()
+        if o in IOFAM and self.terminated:
+            return 's'
+        return o
 
     def throw(self, code, ctx=''):
         if code == 'u':
@@ -314,7 +326,7 @@ def dep_initiator_peer(w, data):
         pfb = data[3]
         if pfb & 0xE0 == 0x80:
             return out(bytearray([4, 0xD5, 0x07, pfb]))
-        o = w.peer.next()
+        o = w.peer_answer()
         w.throw(o)
         if o == 'x':
             raise nfc.clf.TimeoutError('scripted')
@@ -331,7 +343,7 @@ def dep_target_peer(w, data):
     H = bytearray.fromhex
     if data is None or len(data) < 4 or data[1] != 0xD5 or data[2] != 0x07 or data[3] & 0xE0 != 0:
         raise nfc.clf.TimeoutError('scripted')
-    o = w.peer.next()
+    o = w.peer_answer()
     w.throw(o)
     if o == 'x':
         raise nfc.clf.TimeoutError('scripted')
@@ -664,7 +676,7 @@ def _peer_exchange(w, send_data):
     w.ev.append('!xchg')
     if w.case.get('busy') and send_data is not None and bytes(send_data).endswith(b'DATA'):
         w.feed()
-    o = w.peer.next()
+    o = w.peer_answer()
     w.throw(o)                               # the reader's transport fails (family of IOError)
     if o == 'd':
         return bytearray(b'\x01\x40')       # DISC
